@@ -208,10 +208,11 @@ def crash_atomic(op: int, t1: int, t2: bool, a: bool, k: int) -> bool:
   pre: 0 <= op <= 7 and 0 <= t1 <= 4 and 0 <= k <= 14
   post: _
   """
-  op, t1, t2, a, k = conc(op, 0, 7), conc(t1, 0, 4), cbool(t2), cbool(a), conc(k, 0, 14)
+  op = conc(op, 0, 7)
   sl = os.environ.get('VERIF_SLICE')
   if sl is not None and op % 4 != int(sl):
     return True
+  t1, t2, a, k = conc(t1, 0, 4), cbool(t2), cbool(a), conc(k, 0, 14)
   if op in (1, 2, 3, 4, 7) and a:
     return True
   return _crash(op, t1, 1 if t2 else 0, 0, a, k, (op, t1, t2, a, k))
@@ -222,10 +223,11 @@ def crash_multi(op: int, t1: int, t2: bool, ops: bool, a: bool, k: int) -> bool:
   pre: 8 <= op <= 10 and 0 <= t1 <= 4 and 0 <= k <= 24
   post: _
   """
-  op, t1, t2, ops, a, k = conc(op, 8, 10), conc(t1, 0, 4), cbool(t2), cbool(ops), cbool(a), conc(k, 0, 24)
+  op, a = conc(op, 8, 10), cbool(a)
   sl = os.environ.get('VERIF_SLICE')
   if sl is not None and (op - 8) * 2 + (1 if a else 0) != int(sl) and not (op != 8 and (op - 8) * 2 == int(sl)):
     return True
+  t1, t2, ops, k = conc(t1, 0, 4), cbool(t2), cbool(ops), conc(k, 0, 24)
   if op != 8 and a:
     return True
   return _crash(op, t1, 1 if t2 else 0, 1 if ops else 0, a, k, (op, t1, t2, ops, a, k))
